@@ -93,4 +93,11 @@ CLAIMS = {
                 "Tie: fit stream with model-call traces.",
         "note": "Trusted: Lean kernel; the transcription of lm.rs control flow as validated by the trace acceptor on every fit; QR/LMPAR numerics are oracles (nothing assumed); floating point modelled not verified.",
     },
+    "C09": {
+        "text": "Kernel-checked for an ARBITRARY user model (a state machine that may fail at any call depending on any hidden state - this subsumes every fault schedule): a failure in set_params or eval leaves no residuals, coefficients or Jacobian (c09_absent, c09_no_recompute_on_rejection), "
+                "a failing derivative removes only the Jacobian (c09_deriv), a present cache was computed from the basis matrix returned in that very update (c09_coherent); the optimizer stops with User(residuals)/User(jacobian) on such failures (c09_trial_failure, c09_jacobian_failure) "
+                "and fit returns Err carrying that problem whenever the final problem has no residuals or the termination is User (c09_fit_err). Tie: exhaustive injection at every call index, transient and persistent.",
+        "category": "proof",
+        "note": "Trusted: as C01/C04. Genuine defects found and repaired by fix: commits 55ca609 and 34e4241 (see known_findings.json); their failing histories are kept in corpus/. No-panic under faults is observed on the code (catch_unwind per case), proved for the model only where the model has explicit panic outcomes (C17).",
+    },
 }
